@@ -19,7 +19,51 @@ func genC12(r *Rand, n int, tier string, emit func(string)) {
 	for i := 0; i < n; i++ {
 		w := ws[i%len(ws)]
 		gs := Pick(r, 0, 0, 1, 3, 10)
-		switch r.Intn(4) {
+		switch r.Intn(6) {
+		case 4:
+			// large messages around the segment size: block-fetch server streaming blocks whose
+			// encodings (alone, or together with the StartBatch that precedes them in the batch)
+			// are exact multiples of the 65535-byte segment payload, one byte less, one byte more
+			bw := ws[0]
+			for _, x := range ws {
+				if x.p.Name == "blockfetch" && g3RoleName(x.role) == "server" {
+					bw = x
+				}
+			}
+			toks := []string{"P0.0", "A", "L2.0"}
+			nb := 1 + r.Intn(3)
+			for j := 0; j < nb; j++ {
+				n := Pick(r, 65533, 65535, 65535, 65534, 65536, 131068, 131070, 131071, 196605, 50, 70000)
+				toks = append(toks, fmt.Sprintf("L4.0@%d", n))
+			}
+			toks = append(toks, "L5.0")
+			if r.Chance(1, 2) {
+				// second batch in the same conversation
+				toks = append(toks, "P0.0", "A", "L2.0", fmt.Sprintf("L4.0@%d", Pick(r, 65535, 131070, 65533)), "L5.0")
+			}
+			emit(fmt.Sprintf("eng %s %s %d | %s", bw.p.Name, g3RoleName(bw.role), gs, strings.Join(toks, " ")))
+		case 5:
+			// long pipelines: more messages than one batch holds (20), so queued transitions
+			// are worked off and the pipeline is topped up from the queue several times
+			conv := w.walk(r, 30+r.Intn(60))
+			toks := []string{}
+			nl := 0
+			for _, c := range conv {
+				s := &w.p.Samples[c[1]]
+				if c[0] == 1 {
+					if nl >= 68 {
+						break
+					}
+					nl++
+					toks = append(toks, "L"+symStr(s))
+				} else {
+					toks = append(toks, Pick(r, "P", "Q")+symStr(s))
+				}
+			}
+			if len(toks) > 0 && strings.HasPrefix(toks[0], "Q") {
+				toks[0] = "P" + toks[0][1:]
+			}
+			emit(fmt.Sprintf("eng %s %s %d | %s", w.p.Name, g3RoleName(w.role), gs, strings.Join(toks, " ")))
 		case 0, 1:
 			// conforming history, the local application enqueues everything up front
 			// (pipelining), the scripted peer answers everything up front as well
